@@ -119,6 +119,7 @@ type plan struct {
 	DlMillis  int      `json:"dl_ms"`       // deadline distance
 	DlByOther bool     `json:"dl_by_other"` // deadline armed by a third goroutine while the call is (about to be) blocked
 	ZeroReads bool     `json:"zero_reads"`  // occasionally issue zero-length reads
+	Feint     bool     `json:"feint"`       // stream runs: each goroutine first sets a deadline 3 ms ahead and clears it at once, then waits 8 ms
 }
 
 func makePlan(rng *rand.Rand, run int) plan {
@@ -139,6 +140,7 @@ func makePlan(rng *rand.Rand, run int) plan {
 	default:
 		p.Mode = "stream"
 	}
+	p.Feint = p.Mode == "stream" && run%6 == 0
 	p.Initiator = rng.Intn(2)
 	for e := 0; e < 2; e++ {
 		n := rng.Intn(14)
@@ -289,6 +291,16 @@ func (s *runState) writer(end int, seed int64, wg *sync.WaitGroup) {
 	conn := s.conns[end]
 	dlDir := end == p.Initiator && p.Mode != "stream"
 	defer close(s.finished[end*2])
+	if p.Feint {
+		// a deadline that is withdrawn before it passes must leave nothing behind
+		c := l.begin(end, "setwd", 3, nil)
+		err := conn.SetWriteDeadline(time.Now().Add(3 * time.Millisecond))
+		l.end(c, 0, err)
+		c = l.begin(end, "setwd", 0, nil)
+		err = conn.SetWriteDeadline(time.Time{})
+		l.end(c, 0, err)
+		time.Sleep(8 * time.Millisecond)
+	}
 	defer func() {
 		if dlDir {
 			// whatever happened, nobody may keep waiting for this goroutine
@@ -361,6 +373,15 @@ func (s *runState) reader(end int, seed int64, wg *sync.WaitGroup) {
 	// the deadline direction is initiator -> responder, so its reader is the responder's
 	dlDir := end != p.Initiator && p.Mode != "stream"
 	defer close(s.finished[end*2+1])
+	if p.Feint {
+		c := l.begin(end, "setrd", 3, nil)
+		err := conn.SetReadDeadline(time.Now().Add(3 * time.Millisecond))
+		l.end(c, 0, err)
+		c = l.begin(end, "setrd", 0, nil)
+		err = conn.SetReadDeadline(time.Time{})
+		l.end(c, 0, err)
+		time.Sleep(8 * time.Millisecond)
+	}
 	defer func() {
 		if dlDir && p.Mode == "rdeadline" {
 			s.release()
@@ -791,7 +812,7 @@ func judge(s *runState, out *outcome) {
 			case "":
 			case "timeout":
 				if !s.armed[e][1].Load() {
-					bad("write-timeout-without-deadline", "%s Write returned a timeout but no write deadline was ever set on that end", dir)
+					bad("write-timeout-without-deadline", "%s Write returned a timeout but no write deadline was in force on that end (none was set, or one was set and withdrawn again before it passed)", dir)
 				} else {
 					out.timeouts++
 					if e == s.p.Initiator && s.p.Mode == "wdeadline" {
@@ -837,7 +858,7 @@ func judge(s *runState, out *outcome) {
 				eof = true
 			case "timeout":
 				if !s.armed[1-e][0].Load() {
-					bad("read-timeout-without-deadline", "%s Read returned a timeout but no read deadline was ever set on that end", dir)
+					bad("read-timeout-without-deadline", "%s Read returned a timeout but no read deadline was in force on that end (none was set, or one was set and withdrawn again before it passed)", dir)
 				} else {
 					out.timeouts++
 					if e == s.p.Initiator && s.p.Mode == "rdeadline" {
@@ -960,7 +981,7 @@ func bucket(b int) string {
 
 func main() {
 	r := ev.Start("C39", "exploration")
-	r.SetRule("one run = one real BufferedPipe(buf), buf in 1..64 (biased to 1..3), a writer and a reader goroutine per end (chunks of 0..4*buf bytes, read buffers 0..2*buf+2, seeded Gosched/sleep yields), the initiator closing after its last write, the responder after its reader ended, in 1/3 of the runs an early Close of either end after the k-th op of a seeded goroutine (inline or from a third goroutine), and in 2/5 of the runs a read or write deadline (armed by the caller or by a third goroutine) on a call that is logically starved: the peer goroutine is gated until the timeout was seen. Non-trivial: >= 1 byte was transferred and checked. Distinct by (mode, buffer bucket, initiator, early-close end/kind, some chunk > buffer, traffic > 2*buffer, timeout observed on the starved call, a failed write contributed a prefix, number of directions read to EOF)")
+	r.SetRule("(a sixth of the stream runs start with every goroutine setting a deadline 3 ms ahead, withdrawing it at once and waiting 8 ms: no call may time out afterwards) one run = one real BufferedPipe(buf), buf in 1..64 (biased to 1..3), a writer and a reader goroutine per end (chunks of 0..4*buf bytes, read buffers 0..2*buf+2, seeded Gosched/sleep yields), the initiator closing after its last write, the responder after its reader ended, in 1/3 of the runs an early Close of either end after the k-th op of a seeded goroutine (inline or from a third goroutine), and in 2/5 of the runs a read or write deadline (armed by the caller or by a third goroutine) on a call that is logically starved: the peer goroutine is gated until the timeout was seen. Non-trivial: >= 1 byte was transferred and checked. Distinct by (mode, buffer bucket, initiator, early-close end/kind, some chunk > buffer, traffic > 2*buffer, timeout observed on the starved call, a failed write contributed a prefix, number of directions read to EOF)")
 	r.Assume("schedules are sampled by the Go scheduler under seeded yields and parallel load, not enumerated; one writer and one reader goroutine per direction (plus closers / deadline setters), as in the property's quantifier")
 	r.Assume("a run that does not finish is a violation only if the scheduler's goroutine dump proves that no progress is possible (every goroutine of the run parked in sync.Cond.Wait inside bufconn or blocked on the run's own channels, no deadline set, two identical looks); otherwise the 60 s watchdog reports INCONCLUSIVE with the pending call")
 	r.Assume("a failed Write may have transferred a prefix of its bytes although it reports n=0 (the statement does not pin the count down); timeouts are only required to be well-formed and to have an armed deadline as cause, a late timer firing after a deadline was cleared is not judged")
@@ -1048,6 +1069,9 @@ func main() {
 		}
 		if p.Mode != "stream" {
 			r.Count("deadline_runs", 1)
+		}
+		if p.Feint {
+			r.Count("runs_with_a_deadline_set_and_withdrawn_before_it_passed", 1)
 		}
 		r.Count("dontcare_zero_length_write_after_close_returned_nil", int64(out.zeroAfterClose))
 		if out.partial {
